@@ -7,7 +7,7 @@ import math
 import numpy as np
 
 from checks import specgen as SG
-from checks.common import hash_tag
+from checks.common import hash_tag, relayout, xf_build, xf_names
 from qmc import gen as G
 from qmc import oracle as O
 from qmc.loader import load
@@ -41,6 +41,13 @@ def cases(tier, seed):
             if r >= 1:
                 for e in (-40, 20, 30):  # whole-matrix scalings ~1e-12, 1e6, 1e9: thresholds are relative
                     out.append({"key": f"rank/{m}x{n}/r={r}/c={'-'.join(map(str, comp))}/hh/scale=2^{e}", "grp": "rank", "m": m, "n": n, "vals": vals, "kU": "hh", "kV": "hh", "scale": e})
+    # unusual-but-legal variants; spectrum / rank from the oracle
+    for m, n in itertools.product(range(1, 5), repeat=2):
+        for nm in xf_names(m, n):
+            out.append({"key": f"rank/xf/{m}x{n}/{nm}", "grp": "rank", "m": m, "n": n, "vals": None, "kU": "xf", "kV": "xf", "xf": nm})
+    for n in range(1, 5):
+        for nm in xf_names(n, n, hermitian=True):
+            out.append({"key": f"moore/xf/n={n}/{nm}", "grp": "moore", "n": n, "xf": nm})
     L = 3 if tier == "quick" else 5
     for n in range(1, L + 1):
         for a, b in itertools.product(range(6), repeat=2):
@@ -73,7 +80,7 @@ def invertible(idx, n, fill):
         return T
     if idx == 4:
         return G.unitary("hh", n, fill, variant=2)
-    return G.with_spectrum(G.unitary("hh", n, fill, variant=3), [4.0, 1.0, 0.5, 2.0, 0.25, 8.0][:n], G.unitary("hh", n, fill, variant=5))
+    return G.with_spectrum(G.unitary("hh", n, fill, variant=3), [[4.0, 1.0, 0.5, 2.0, 0.25, 8.0][t % 6] for t in range(n)], G.unitary("hh", n, fill, variant=5))
 
 
 def det_exp(A):
@@ -88,14 +95,20 @@ def run_case(case, seed):
     fill = G.Fill(seed, stream=hash_tag(case["key"]))
     if grp == "rank":
         m, n, vals = case["m"], case["n"], case["vals"]
-        A, Uq, Vq = SG.build(m, n, vals, case["kU"], case["kV"], fill, variant=len(case["key"]))
+        lay = "C"
+        if case.get("xf"):
+            A, lay = xf_build(case["xf"], m, n, fill)
+            sv_ = O.svals(A)
+            vals = [float(v) if v > 1e-11 * max(sv_[0], 1e-300) else 0.0 for v in sv_]
+        else:
+            A, Uq, Vq = SG.build(m, n, vals, case["kU"], case["kV"], fill, variant=len(case["key"]))
         if case.get("scale"):
             A = np.ldexp(A, case["scale"])
             vals = [float(np.ldexp(v, case["scale"])) for v in vals]
         info = SG.cluster_info(vals, m, n)
         r = info["rank"]
         tags = {"grp": "rank", **info, "m": m, "n": n}
-        Aq = G.to_quat(A)
+        Aq = relayout(G.to_quat(A), lay)
         before = Aq.tobytes()
         nA = max(O.fro(A), 1.0) if not case.get("scale") else O.fro(A)
         ok, rk = call(u.rank, Aq)
@@ -148,7 +161,8 @@ def run_case(case, seed):
             else:
                 if abs(float(d) - exp) > O.budget(max(exp, nA ** n), dims=16 * n):
                     fails.append(fail("dieudonne=prod_sigma", f"det={float(d)!r} expected {exp!r}", fn="det", **tags))
-                if (r < n) != (abs(float(d)) <= O.budget(nA ** n, dims=16 * n)):
+                # (a full-rank graded input may have a determinant below the absolute budget: nothing to decide then)
+                if not (r == n and exp <= 10 * O.budget(nA ** n, dims=16 * n)) and (r < n) != (abs(float(d)) <= O.budget(nA ** n, dims=16 * n)):
                     fails.append(fail("det_zero_iff_singular", f"det={float(d)!r} rank={r} n={n}", fn="det", **tags))
                 ok2, d2 = call(u.det, Aq, "Dieudonné")
                 if not ok2 or float(d2) != float(d):
@@ -183,13 +197,18 @@ def run_case(case, seed):
         return {"key": case["key"], "fails": fails, "nontrivial": True, "digest": digest(Gm, Hm), "path": "laws", "obs": [f["clause"] for f in fails]}
     # Moore determinant
     n = case["n"]
-    lam = []
-    for c, s, v in zip(case["comp"], case["signs"], (2.0, 0.5, 4.0, 1.0, 0.25, 8.0)):
-        lam += [s * v] * c
-    V = G.unitary(case["kind"], n, fill, variant=n)
-    A = G.herm_with_spectrum(V, lam)
+    lay = "C"
+    if case.get("xf"):
+        A, lay = xf_build(case["xf"], n, n, fill, hermitian=True)
+        lam = O.eigvals_herm(A).tolist()
+    else:
+        lam = []
+        for c, s, v in zip(case["comp"], case["signs"], (2.0, 0.5, 4.0, 1.0, 0.25, 8.0)):
+            lam += [s * v] * c
+        V = G.unitary(case["kind"], n, fill, variant=n)
+        A = G.herm_with_spectrum(V, lam)
     tags = {"grp": "moore", "n": n}
-    ok, d = call(u.det, G.to_quat(A), "Moore")
+    ok, d = call(u.det, relayout(G.to_quat(A), lay), "Moore")
     exp = float(np.prod(lam))
     if not ok:
         fails.append(fail("raised", f"det Moore: {type(d).__name__}: {d}", fn="det", **tags))
